@@ -72,6 +72,8 @@ func main() {
 		os.Exit(cmdWriters(os.Args[2:]))
 	case "paths":
 		os.Exit(cmdPaths(os.Args[2:]))
+	case "lockstats":
+		os.Exit(cmdLockStats(os.Args[2:]))
 	case "golden":
 		os.Exit(cmdGolden(os.Args[2:]))
 	case "linpaths":
